@@ -130,8 +130,8 @@ def st_gap(strict=False):
 
     @st.composite
     def gen(draw):
-        # (Hypothesis prefers the first element: affine is listed first and twice)
-        if draw(st.sampled_from(["affine", "affine", "linear"])) == "affine":
+        # (Hypothesis prefers the first element: affine is listed first)
+        if draw(st.sampled_from(["affine", "linear"])) == "affine":
             return [draw(pen), draw(pen)]
         return draw(pen)
 
